@@ -391,6 +391,9 @@ func workerMain(dir, scriptPath, outPath string) {
 	obs := make([]Obs, len(ops))
 	zero := time.Duration(0)
 	for i, op := range ops {
+		if os.Getenv("C01_LOG") != "" {
+			fmt.Fprintf(os.Stderr, "op %d %s\n", i, op.Kind)
+		}
 		switch op.Kind {
 		case "card":
 			writer.SetCardinalityLimit(uint16(op.N))
